@@ -424,6 +424,78 @@ pub fn repeated_motif_program(r: &mut Rng) -> Vec<u8> {
     out
 }
 
+/// sub-word values loaded once and shared between several packed stores that lay them out in
+/// different orders (mapping values, array elements, plain slots): the fields are stably typed
+/// and registered once, so their type variables are numbered in the order the stores happen to
+/// be visited
+pub fn shared_fields_program(r: &mut Rng) -> Vec<u8> {
+    let mut a = vm::Asm::new(0);
+    let nf = 2 + r.below(2);
+    let widths: Vec<usize> = (0..nf).map(|_| [8usize, 16, 32, 64][r.below(4)]).collect();
+    for (i, w) in widths.iter().enumerate() {
+        a.push_word(&vec![0xff; w / 8]);
+        a.push_u(0x24 + 0x20 * i as u64);
+        a.op(0x35);
+        a.op(0x16);
+    }
+    let use_mul = !r.chance(1, 4);
+    let nstores = 2 + r.below(2);
+    for s in 0..nstores {
+        let mut order: Vec<usize> = (0..nf).collect();
+        for i in (1..order.len()).rev() {
+            let j = r.below(i + 1);
+            order.swap(i, j);
+        }
+        let take = if nf > 2 && r.chance(1, 3) { 2 } else { nf };
+        let mut off = 0usize;
+        for (j, &fi) in order[..take].iter().enumerate() {
+            let extra = usize::from(j > 0);
+            a.op(0x80 + (nf - 1 - fi + extra) as u8);
+            if off > 0 {
+                shift_left(&mut a, off, use_mul);
+            }
+            if j > 0 {
+                a.op(0x17);
+            }
+            off += widths[fi];
+        }
+        match r.below(4) {
+            0 => a.push_u(s as u64),
+            1 => {
+                // element of the dynamic array at slot s
+                a.push_u(s as u64);
+                a.push_u(0);
+                a.op(0x52);
+                a.push_u(0x20);
+                a.push_u(0);
+                a.op(0x20);
+                a.push_u(4);
+                a.op(0x35);
+                a.op(0x01);
+            }
+            _ => {
+                // value of the mapping at slot s
+                a.push_u(4);
+                a.op(0x35);
+                a.push_u(0);
+                a.op(0x52);
+                a.push_u(s as u64);
+                a.push_u(0x20);
+                a.op(0x52);
+                a.push_u(0x40);
+                a.push_u(0);
+                a.op(0x20);
+            }
+        }
+        a.op(0x55);
+    }
+    for _ in 0..nf {
+        a.op(0x50);
+    }
+    a.op(0x00);
+    a.finish()
+}
+
 /// real storage accesses whose results meet look-alike hashes (keccak(key . CONST),
 /// keccak(CONST) + i) in the same expression, outside the access itself
 pub fn mixed_lookalike_program(r: &mut Rng) -> Vec<u8> {
